@@ -76,6 +76,7 @@ def _grid():
                             for tj in (0, 1):
                                 cells.append(dict(base, kind='hyptrap', insn='bxj', TJDBX=tj, **s))      # BXJ trapped by HSTR.TJDBX
                                 cells.append(dict(base, kind='hyptrap', insn='cp15', TN=tj, **s))        # MCR/MRC/MCRR/MRRC p15 trapped by HSTR.T<CRn>
+                                cells.append(dict(base, kind='hyptrap', insn='tee', TTEE=tj, **s))       # MCR/MRC p14,6 (TEECR/TEEHBR) trapped by HSTR.TTEE
                     cells.append(dict(base, kind='reset'))
     # state constraints of the architecture
     out = []
@@ -126,6 +127,8 @@ def _fault_word(kind, thumb, rng, cell=None):
         if (cell or {}).get('insn') == 'bxj':
             rm = rng.randrange(0, 13)
             return (0xF3C08F00 | rm << 16) if thumb else (0xE12FFF20 | rm)
+        if (cell or {}).get('insn') == 'tee':
+            return 0xEEC00E10 | rng.getrandbits(1) << 20 | rng.getrandbits(1) << 16 | rng.randrange(0, 13) << 12       # MCR/MRC p14, 6, Rt, c0|c1, c0, 0
         if (cell or {}).get('insn') == 'cp15':
             crn, rt = cell['_crn'], rng.randrange(0, 13)
             if cell['_two']:
@@ -197,6 +200,8 @@ def gen_cell(cell, rng, rep):
         sys['hstr'] = cell.get('TJDBX', rng.getrandbits(1)) << 17
         if cell.get('insn') == 'cp15':
             sys['hstr'] = (rng.getrandbits(16) & ~(1 << cell['_crn'])) | cell['TN'] << cell['_crn']
+        if cell.get('insn') == 'tee':
+            sys['hstr'] = rng.getrandbits(16) | cell['TTEE'] << 16 | rng.getrandbits(1) << 17
     if pmsa:
         regs = [(0, 0, 0)] * 12
         regs[0] = (1 | 31 << 1, 0, 3 << 8)                       # 4 GiB, full access
@@ -265,6 +270,11 @@ def expected_kind(kind, arm, cfg, cell=None):
         if (r.scr.value >> 7) & 1:
             return 'und' if not secure else None       # SCD in Secure state: UNPREDICTABLE
         return 'smc'
+    if kind == 'hyptrap' and (cell or {}).get('insn') == 'tee':
+        # ThumbEE configuration registers: trapped from Non-secure PL1 modes when HSTR.TTEE is set, never from Hyp mode
+        if m == 0x10:
+            return None
+        return 'hyptrap' if (virt and not secure and m != 0x1a and (r.hstr.value >> 16) & 1) else 'none'
     if kind == 'hyptrap' and (cell or {}).get('insn') == 'cp15':
         # CP15 access from a Non-secure PL1 mode with HSTR.T<CRn> set: Hyp trap; otherwise the (not implemented) CP15 access itself
         if m == 0x10:
@@ -373,7 +383,7 @@ class Injector:
         got = [k for tt, k in self.mon.taken if tt == t and k != 'reset']
         if want == 'reset':
             return
-        cp15 = (self.case.get('cell') or {}).get('insn') == 'cp15' and self.inject.get(t) == 'hyptrap'
+        cp15 = (self.case.get('cell') or {}).get('insn') in ('cp15', 'tee') and self.inject.get(t) == 'hyptrap'
         if (rec['nie'] or rec['exc']) and not (cp15 and rec['nie'] and not rec['exc']):
             # (a CP15 access always ends in the declared-unimplemented CP15 hook, but only AFTER the trap decision: that decision is still checked)
             return
@@ -386,10 +396,16 @@ class Injector:
             kind0 = self.inject.get(t)
             ec = (b.cores[0].arm.registers.hsr.value >> 26) & 0x3F
             cell_ = self.case.get('cell') or {}
-            want_ec = {'hyptrap': 0x13 if kind0 == 'smc' else {'bxj': 0x0A, 'cp15': 0x04 if cell_.get('_two') else 0x03}.get(cell_.get('insn'), 0x01), 'svc': 0x11}[want]
+            want_ec = {'hyptrap': 0x13 if kind0 == 'smc' else {'bxj': 0x0A, 'cp15': 0x04 if cell_.get('_two') else 0x03, 'tee': 0x05}.get(cell_.get('insn'), 0x01), 'svc': 0x11}[want]
             if kind0 in ('hyptrap', 'smc', 'svc') and ec != want_ec:
                 b.violate('entry_hsr', want, 'hsr_ec', 'entry to Hyp mode for %s: HSR.EC = %#x, expected %#x' % (kind0, ec, want_ec))
             b.cover.add('hsr|%s|%x' % (kind0, ec))
+        lp = getattr(self.mon, 'last_post', None)
+        if got and lp and lp[0] == t and not rec['nie'] and not rec['exc'] and rec.get('post') is not None and rec['post'] != lp[1]:
+            d = [i for i, (x, y) in enumerate(zip(rec['post'], lp[1])) if x != y]
+            regs = [M.RNAMES[i] for i, (x, y) in enumerate(zip(rec['post'][0], lp[1][0])) if x != y]
+            b.violate('entry_model', got[-1], 'state_changed_after_entry', 'tick %d: after the %s entry the step went on and changed %s (fields %s); pre cpsr=%#x pc=%#x opcode=%#x' % (
+                t, got[-1], regs, d, rec['pre'][1], rec['pre_pc'], b.cores[0].arm.opcode))
         if want not in got:
             b.violate('entry_dispatch', want, 'not_taken' if not got else 'wrong_kind',
                       'tick %d: expected %s entry, dispatched %s; pre cpsr=%#x pc=%#x opcode=%#x' % (t, want, got or 'none', rec['pre'][1], rec['pre_pc'], b.cores[0].arm.opcode))
